@@ -338,11 +338,12 @@ theorem C12_failed_logout_memory (st : St) (now tok : Nat) (dbOK dbOK' : Bool) :
     (checkSessionF (logoutF st tok dbOK) now tok dbOK').2 = logoutF st tok dbOK := by
   simp [checkSessionF, logoutF, FMap.erase]
 
-/-- **FINDING — a logout whose file delete fails is undone by a restart**:
-login (token 0, TTL 1 h), logout while sessions.db cannot be written, restart
-on the same file: the logged-out token authenticates again (until its
-expiry).  The monitor rejects the observation. -/
-theorem C12_counterexample_failed_logout_restart :
+/-- **Observation (storage fault, outside the property's histories) — a logout
+whose file delete fails is undone by a restart**: login (token 0, TTL 1 h),
+logout while sessions.db cannot be written, restart on the same file: the
+logged-out token authenticates again (until its expiry).  `C12_logout_final`
+therefore carries the assumption that sessions.db writes succeed. -/
+theorem C12_failed_logout_restart_revives :
     let t := 946684800 * nsPerSec
     let st1 := (stepF (St.init 5 15 3600) t true (.login ⟨0, none, false⟩ true 0)).2
     let st2 := (stepF st1 t false (.logout 0)).2
@@ -407,6 +408,27 @@ example : exObs (St.init 2 1 3600) ex0 exEvs =
     [.login .forbidden, .login .forbidden, .login (.tooMany 59), .login (.ok 0),
      .auth true, .done, .auth true, .login (.ok 1), .done, .done, .auth false, .auth true, .auth false] := by
   decide
+
+/-- the hypotheses of `C12_threshold_run` are satisfiable: limit 2; a failure
+and then a success of address 0 (clean), then two failures of address 0 ten
+seconds apart with a failure of address 1 in between — every attempt of
+address 0 during the next minute is answered 429 -/
+example (d : Nat) (hd : d < 60 * nsPerSec) (good : Bool) (user : Nat) :
+    let evs0 : List Ev := [.op (.login ⟨0, none, false⟩ false 0), .advance nsPerSec, .op (.login ⟨0, none, false⟩ true 0)]
+    let evs1 : List Ev := [.op (.login ⟨0, none, false⟩ false 0), .advance (10 * nsPerSec),
+      .op (.login ⟨1, some 0, true⟩ false 0), .op (.login ⟨0, some 3, false⟩ false 1)]
+    let s0 := runM (St.init 2 1 3600) ex0 evs0
+    let s1 := runM s0.1 s0.2 evs1
+    ∃ r, (handleLogin s1.1 (s1.2 + d) ⟨0, some 9, true⟩ good user).1 = .tooMany r := by
+  intro evs0 evs1 s0 s1
+  have h := C12_threshold_run 2 1 3600 ex0 evs0 evs1 0 (by decide) (by decide) (by decide)
+    [ex0 + nsPerSec, ex0 + 11 * nsPerSec] (by decide) (by decide) (by decide) d ⟨0, some 9, true⟩ rfl good user
+  have ht : s1.2 = ex0 + 11 * nsPerSec := by decide
+  exact (h (by
+    show s1.2 + d < _
+    rw [ht]
+    simp only [List.getLastD_cons, List.getLastD_nil]
+    omega)).1
 
 /-- Sensitivity of the model to the two keys of handleLogin: were the failures
 counted under another address than the one the gate looks at (limit 1), the
